@@ -168,3 +168,67 @@ def run(run, P):
                               '%s.%s is set from %s: request and response are then protected with different %s and the peer rejects genuine messages (or a nonce is reused)' %
                               (l['rec'], l['f'], what, l['f']), [])
     run.require(nsink >= 6 or run.fixture_mode, 'R-OSC-ROLE: only %d role-carrying stores found (expected the association set-up/refresh sites and the COSE setters)' % nsink)
+
+
+def run_assoc_source(run, P, finder='oscore_find_association'):
+    """R-OSC-ROLE (the association is the source): a response is protected, and a response is verified, with the context of the request it
+    belongs to -- kept per token in the association -- not with whatever context the session used last.  Computed: the field names the
+    association record shares with the session record (today recipient_ctx).  In every function that looks the association up
+    (A = oscore_find_association(..)), on the paths on which A is known non-NULL and until A is assigned again, such a field is not read
+    from the session.  With two security contexts on one session (several clients behind one proxy / NAT) `session->recipient_ctx` is
+    the context of whoever sent the latest request: the response goes out under another peer's keys."""
+    from core.psts import Env, solve, relevance, apply_generic
+    run.rule('R-OSC-ROLE')
+    SESS = 'coap_session_t'
+    if ASSOC not in P.records or SESS not in P.records:
+        run.require(run.fixture_mode, 'R-OSC-ROLE: record %s or %s not found' % (ASSOC, SESS))
+        return
+    common = set(x['n'] for x in P.records[ASSOC]) & set(x['n'] for x in P.records[SESS])
+    common = set(n_ for n_ in common if any(x['n'] == n_ and x.get('p') for x in P.records[ASSOC]))       # pointer-typed: a context, not a flag
+    run.require(bool(common) or run.fixture_mode, 'R-OSC-ROLE: association and session no longer share a field (recipient_ctx expected)')
+    n = 0
+    for f in sorted(P.lib_funcs(), key=lambda f: f['name']):
+        finds = []
+        for b, ev in P.events(f):
+            t = ev['e']
+            if t.get('k') == 'asg' and t.get('op') == '=' and isinstance(strip(t['r']), dict) and strip(t['r']).get('fn') == finder and ap(t['l']):
+                finds.append((ev, ap(t['l'])))
+        if not finds:
+            continue
+        name = f['name']
+        avars = set(a for _e, a in finds)
+
+        def sess_reads(t):
+            part = t['r'] if t.get('k') == 'asg' and t.get('op') == '=' else t
+            return [x for x in walk(part) if isinstance(x, dict) and x.get('k') == 'mem' and x.get('f') in common and x.get('rec') == SESS]
+
+        def is_rule_event(ev):
+            t = ev['e']
+            return any(ev is e_ for e_, _a in finds) or bool(sess_reads(t)) or (t.get('k') == 'asg' and ap(t['l']) in avars)
+        keys, R = relevance(f, is_rule_event, avars)
+        R = set(R) | avars
+        for b in f['blocks']:
+            c = (b.get('term') or {}).get('cond')
+            if c is not None and sess_reads(c):
+                keys = set(keys) | {b['id']}
+        rep = set()
+
+        def on_event(ev, env, ctx):
+            t = ev['e']
+            if not ev.get('top', True):
+                return None
+            live = [a for a in avars if env.nullf(a) == 'N']
+            if live and t.get('k') in ('asg', 'call', 'decl', 'ret'):
+                for x in sess_reads(t):
+                    run.oblige('R-OSC-ROLE', False, '%s:%s:from-association' % (name, x['f']))
+                    if ev['loc'] not in rep:
+                        rep.add(ev['loc'])
+                        run.violation('R-OSC-ROLE', name, ev['loc'], 'context-from-session-with-association-at-hand:%s' % x['f'],
+                                      '`%s` takes %s from the session on a path on which the association of this exchange was found: the session field is the context of the '
+                                      'latest request on that session, the exchange\'s own context is association->%s' % (short(t)[:60], x['f'], x['f']), ctx.path())
+            return None
+        n += 1
+        run.instance('R-OSC-ROLE', '%s: with the association found, %s is not read from the session' % (name, '/'.join(sorted(common))))
+        run.oblige('R-OSC-ROLE', True, '%s:assoc-source' % name)
+        solve(f, Env(), on_event, None, keys, R, key_fn=lambda e: tuple(e.nullf(a) for a in sorted(avars)))
+    run.require(n >= 2 or run.fixture_mode or run.cfg != 'base', 'R-OSC-ROLE(association source): fewer than 2 functions that look up the association found')
